@@ -119,18 +119,11 @@ Proof.
 Qed.
 Print Assumptions c02_sim_nothing_after_decision.
 
-(* script based simulator (_run_job_and_collect_results slices std.out from
-   num_already_before = _last_metric_seen_index): after ANY events — raw operations and polls that do
-   not cover a reporting trial included — the job of a resumed trial gets exactly the reports of
-   std.out ([all], every run of the trial) beyond the number of results that arrived and were handed
-   out or dropped so far; none of those is replayed, none beyond is lost. *)
-Theorem c02_sim_resume_slice :
-  forall evs st i all t,
-  srun init evs = (st, None) -> nth_error (trials st) i = Some t -> status_of t = Paused ->
-  exists st' t', sstep st (ResumeScript i all) = (st', None) /\ nth_error (trials st') i = Some t' /\
-                 cur t' = skipn (length (log t) - length (nrf t)) all /\ todo t' = cur t' /\ dcur t' = [].
-Proof. exact sim_resume_slice. Qed.
-Print Assumptions c02_sim_resume_slice.
+(* script based simulator: a (re)started job gets exactly the reports its own run of the script
+   wrote (patch F-C02-3), i.e. the event [Resume i reps] of the model; c02_sim_prefix_once_ordered and
+   c02_sim_nothing_after_decision then say that nothing the paused run wrote is delivered after the
+   resume.  (Before F-C02-3 the job got std.out[_last_metric_seen_index:], which contains the reports
+   of the paused run that had not arrived: replay findings/C02-sim-script-resume-replays-paused-run.json.) *)
 
 (* tabular simulator: a resumed job replays exactly the rows above the level it was paused at
    (checkpointing), in table order; without checkpointing, or if the level is unknown, all rows *)
